@@ -39,7 +39,7 @@ def parse(out):
         r["violated"].append("TEMPORAL")
     if re.search(r"Deadlock reached", out):
         r["violated"].append("DEADLOCK")
-    m = re.search(r'"REJECTED at line", (\d+)', out)
+    m = re.search(r'"REJECTED at line",\s*(\d+)', out)
     if m:
         r["rejected_line"] = int(m.group(1))
     r["errors"] = [e for e in re.findall(r"Error: (.*)", out)
